@@ -993,8 +993,38 @@ def rule_process_global_cache_keyed_by_its_inputs(ctx) -> None:
             r.key = "t1-cache-key:" + r.key
 
 
+def rule_logical_clock_zero(ctx) -> None:
+    """the logical clock may be given in epoch milliseconds (ctx.now_ms) and 0 is a clock value - it is the one the smoke /
+    identity runs use.  A reader that tests the value by truthiness takes 0 for 'no clock' and falls through to the
+    wall-clock fallback: the same logical inputs then give other retrieval windows on other days."""
+    from ..zero import ZeroIsValue
+
+    def source(e: ast.AST) -> bool:
+        if isinstance(e, ast.Call) and dotted(e.func) == "getattr" and len(e.args) >= 2 and const_str(e.args[1]) == "now_ms":
+            return True
+        return isinstance(e, ast.Attribute) and e.attr == "now_ms" and isinstance(e.ctx, ast.Load)
+
+    n_r = 0
+    for mn in ("clematis.engine.stages.t2.core", "clematis.engine.orchestrator.core", "clematis.engine.stages.t3.reflect", "clematis.engine.orchestrator.reflection"):
+        if mn not in ctx.prog.modules:
+            continue
+        for fn in ctx.prog.module(mn).funcs.values():
+            if not any(source(x) for x in walk_no_defs(fn.node)):
+                continue
+            n_r += 1
+            ctx.analysed_funcs.add(fn.qual)
+            z = ZeroIsValue(ctx, fn, source)
+            bad = [b for b in z.conflations(positivity=False) if "callable" not in b[1]]
+            ctx.check(not bad, "C01.CLOCK", f"{fn.qual}/logical-clock-zero-is-a-clock", fn.loc(bad[0][0]) if bad else fn.loc(),
+                      "ctx.now_ms is told apart from 'no clock' by `is None` / a type test, never by truthiness",
+                      (f"the logical clock ctx.now_ms is tested by {bad[0][2]} (`{bad[0][1][:60]}`): a clock of exactly 0 (the identity runs' value) counts as 'no clock' and the "
+                       "reader falls back to the wall clock") if bad else "")
+    ctx.floor("C01.CLOCK", "readers of ctx.now_ms", n_r, 3)
+
+
 def run(ctx) -> None:
     _REPORTED.clear()
+    rule_logical_clock_zero(ctx)
     rule_process_global_cache_keyed_by_its_inputs(ctx)
     rule_process_state(ctx)
     rule_cache_clock(ctx)
